@@ -26,7 +26,7 @@ func init() { register("C07", checkC07) }
 
 const lifeModelVariant = "fix"
 
-var lifeDefaults = map[string]any{"e": "", "p": "", "op": "", "r": "", "alive": 0, "gor": 0, "pend": 0}
+var lifeDefaults = map[string]any{"e": "", "p": "", "op": "", "r": "", "alive": 0, "gor": 0, "pend": 0, "slow": 0}
 
 type lifeStep struct {
 	P  string `json:"p"`
@@ -44,6 +44,11 @@ type lifeScenario struct {
 	// StopTimeoutMS is then the time-out passed to Stop (0 and negative values mean "time out at once")
 	SlowMS        int `json:"slow_ms,omitempty"`
 	StopTimeoutMS int `json:"stop_timeout_ms,omitempty"`
+	// Busy: what the actor tree is in the middle of when Stop / cancel arrives:
+	// "remote-send" (needs Remoting) = an actor is inside a Tell to a node nobody listens on (the send is being retried);
+	// "graceful-restart" = an actor failed at launch, its supervisor decided GracefulRestart, and the tear-down is
+	// waiting for a child that takes 150 ms to terminate
+	Busy string `json:"busy,omitempty"`
 }
 
 func classifyLifeErr(err error) string {
@@ -166,6 +171,38 @@ func runLifeScenario(sc *lifeScenario, schedule []lifeStep, seed int64) *lifeRun
 					// The actor tree is created only while no stop is under way: spawning from outside the system
 					// concurrently with its termination is not part of this property (that race belongs to C10/C06).
 					if err == nil && !stopping.Load() {
+						switch sc.Busy {
+						case "remote-send":
+							ensureRmsg()
+							dead, _ := sys.CreateRef(fmt.Sprintf("127.0.0.1:%d", freePort()), "/nobody")
+							_, _ = sys.ActorOf(vivid.ActorFN(func(actx vivid.ActorContext) {
+								if _, ok := actx.Message().(*vivid.OnLaunch); ok && dead != nil {
+									actx.Tell(dead, newRmsg(1, "tell", 8, randSrc(1)))
+								}
+							}))
+						case "graceful-restart":
+							maker := vivid.SupervisionStrategyDecisionMakerFN(func(vivid.SupervisionContext) (vivid.SupervisionDecision, string) {
+								return vivid.SupervisionDecisionGracefulRestart, "scripted"
+							})
+							launches := 0
+							_, _ = sys.ActorOf(vivid.ActorFN(func(pctx vivid.ActorContext) {
+								if _, ok := pctx.Message().(*vivid.OnLaunch); ok {
+									_, _ = pctx.ActorOf(vivid.ActorFN(func(fctx vivid.ActorContext) {
+										if _, ok := fctx.Message().(*vivid.OnLaunch); ok {
+											launches++
+											_, _ = fctx.ActorOf(vivid.ActorFN(func(sctx vivid.ActorContext) {
+												if _, ok := sctx.Message().(*vivid.OnKill); ok {
+													time.Sleep(150 * time.Millisecond)
+												}
+											}))
+											if launches == 1 {
+												fctx.Failed("fails at its first launch")
+											}
+										}
+									}))
+								}
+							}), vivid.WithActorSupervisionStrategy(vivid.OneForOneStrategy(maker)))
+						}
 						// a small tree: one parent with two children
 						_, _ = sys.ActorOf(vivid.ActorFN(func(actx vivid.ActorContext) {
 							switch actx.Message().(type) {
@@ -188,7 +225,7 @@ func runLifeScenario(sc *lifeScenario, schedule []lifeStep, seed int64) *lifeRun
 					} else {
 						err = sys.Stop()
 					}
-					ev(map[string]any{"e": "Ret", "p": name, "op": "stop", "r": classifyLifeErr(err)})
+					ev(map[string]any{"e": "Ret", "p": name, "op": "stop", "r": classifyLifeErr(err), "slow": b2i(sc.SlowMS > 0 && sc.SlowMS >= sc.StopTimeoutMS)})
 				case "cancel":
 					c.Yield("h.cancel", sys, nil)
 					stopping.Store(true)
@@ -404,6 +441,18 @@ func checkC07(c *core.Ctx) {
 	}
 	for i := 0; i < nRandom; i++ {
 		sc := &lifeScenario{Script: map[string][]string{}, Remoting: rng.Intn(6) == 0}
+		pick := rng.Intn(8)
+		if b := os.Getenv("VERIF_ONLY_BUSY"); b == "remote-send" {
+			pick = 0
+		} else if b == "graceful-restart" {
+			pick = 1
+		}
+		switch pick {
+		case 0:
+			sc.Busy, sc.Remoting = "remote-send", true
+		case 1:
+			sc.Busy = "graceful-restart"
+		}
 		if rng.Intn(5) == 0 {
 			sc.SlowMS = 700
 			sc.StopTimeoutMS = []int{0, -1000, 1, 30}[rng.Intn(4)]
